@@ -42,6 +42,27 @@ def kcals_dict(kg_pig=86.0, kg_chicken=1.65, kg_large=269.7):
             "KCALS_PER_LARGE_ANIMAL": 2750 * kg_large / 1e9}
 
 
+_lsu = {}
+
+
+def ref_need_per_head(code, species, livestock_unit):
+    """documented net energy per head and month (billion kcals): tabulated livestock units x one livestock unit (29000 MJ net energy
+    a year) x the regional factor of the country's FAO region for that species, read from the shipped tables"""
+    import pandas as pd
+    if not _lsu:
+        d = "data/no_food_trade/animal_feed_data/"
+        m = pd.read_csv(d + "FAO_country_region_mappings.csv")
+        # the mapping lists some codes more than once (FRA: Mayotte, Guadeloupe, Martinique, France); the model takes the first row
+        _lsu["region"] = {}
+        for a3, r in zip(m["alpha3"], m["FAO-region-EK"]):
+            _lsu["region"].setdefault(a3, r)
+        t = pd.read_csv(d + "regional_conversion_factors.csv", index_col="animal")
+        _lsu["factor"] = {(r, a): float(t[r][a] if not hasattr(t[r][a], "iloc") else t[r][a].iloc[-1]) for r in t.columns for a in t.index}
+    region = _lsu["region"].get(code, "Other")
+    one_lsu = 29000.0 / 12 / 4.187 * 1000 / 1e9
+    return livestock_unit * one_lsu * _lsu["factor"][(region, species)]
+
+
 class FeedLog:
     """wraps AnimalPopulation.feed_animals: inputs and outcomes of every monthly feeding"""
 
@@ -57,7 +78,8 @@ class FeedLog:
         def w(animal_list, ruminants, available_feed, available_grass):
             rec = dict(feed_in=float(available_feed.kcals), grass_in=float(available_grass.kcals),
                        species=[dict(type=a.animal_type, ruminant=(a in ruminants), herd=float(a.current_population),
-                                     need_per_head=float(a.net_energy_required_per_month()),
+                                     need_per_head=float(a.net_energy_required_per_month()), species_name=a.animal_species,
+                                     lsu=float(a.livestock_unit),
                                      eff_grass=a.digestion_efficiency["grass"], eff_feed=a.digestion_efficiency["feed"])
                                 for a in animal_list])
             out = log._orig(animal_list, ruminants, available_feed, available_grass)
